@@ -40,7 +40,7 @@ def is_det(cfg):
 @st.composite
 def plan_st(draw, tier):
     cfg = draw(gen.config_st(many_arms_ok=True, arm_kinds=("int", "str", "float", "mix"), max_arms=4, with_binarizer=True, scale_ok=True,
-                             n_jobs_choices=(1, 1, 1, 1, 1, 1, 1, 2, 3, 4), defaults_ok=True,
+                             n_jobs_choices=(1, 1, 1, 1, 1, 1, 1, 2, 3, 4, 19, 40), defaults_ok=True,
                              metrics=gen.SAFE_METRICS))
     h = gen.History(draw, cfg, max_rows=8, series_queries=True, refit_new_d=True)
     kinds = gen.TRAIN_KINDS + gen.ARM_KINDS * 2 + gen.QUERY_KINDS * 3 + gen.WARM_KINDS
